@@ -1,6 +1,7 @@
 package main
 
 import (
+	"time"
 	"encoding/json"
 	"fmt"
 	"net/http"
@@ -67,9 +68,22 @@ func (h hostRewriter) ServeHTTP(w http.ResponseWriter, r *http.Request) {
 
 // newEnvIssuer: issuerFn nil = the static default issuer; otherwise a host-dependent issuer strategy.
 func newEnvIssuer(run *ev.Run, router int, extras bool, issuerFn func(bool) (op.IssuerFromRequest, error)) *env {
+	return newEnvFull(run, router, extras, issuerFn, 0)
+}
+
+// newEnvFull: offset > 0 configures the provider's access-token and id_token_hint verifiers with that clock offset
+// (an application-defined verifier option); with extras the storage ends sessions ONLY through the optional
+// TerminateSessionFromRequest (its plain TerminateSession is a stub).
+func newEnvFull(run *ev.Run, router int, extras bool, issuerFn func(bool) (op.IssuerFromRequest, error), offset time.Duration) *env {
 	caps := vstore.Full
 	caps.Extras = extras // with Extras end_session goes through TerminateSessionFromRequest, without through TerminateSession
-	w := opdrv.MustWorld(opdrv.Options{Config: opdrv.DefaultConfig(), Caps: caps, IssuerFn: issuerFn})
+	var popts []op.Option
+	if offset > 0 {
+		popts = append(popts, op.WithAccessTokenVerifierOpts(func(v *op.AccessTokenVerifier) { v.Offset = offset }),
+			op.WithIDTokenHintVerifierOpts(func(v *op.IDTokenHintVerifier) { v.Offset = offset }))
+	}
+	w := opdrv.MustWorld(opdrv.Options{Config: opdrv.DefaultConfig(), Caps: caps, IssuerFn: issuerFn, ProviderOpts: popts})
+	w.Store.StubTerminateSession = extras
 	w.Store.SetJournal(false)
 	cl := opdrv.StdClients(w.Store)
 	webj := *cl["web"]
